@@ -150,4 +150,77 @@ PROPS = {
         "assumptions": ["Open on a directory left by a clean Close (crash recovery: C02/C10)", "no I/O error in the library calls"],
         "explanation": "proof over the handle model for all step lists; correspondence run ties the model to the current source and evaluates the bound/release oracles on the real process",
     },
+    "C05": {'title': 'Concurrent Get/Put/Delete are linearizable while flushes and compactions run',
+ 'streams': [{'name': 'conc', 'quick': 40, 'thorough': 500, 'thorough_seeds': 2}, {'name': 'race', 'quick': 2, 'thorough': 16, 'thorough_seeds': 1}],
+ 'also': ['C18'],
+ 'technique': 'Lean 4 proof over an interleaving semantics at lock granularity (invariant over all lock-admissible micro-step schedules; constructive '
+              'sequential witness) + regenerated lock facts (decide over the extracted access table) + recorded concurrent histories of the real DB checked '
+              'with porcupine and replayed through the L6 and L7 models',
+ 'level': 'proof',
+ 'design_ref': '§5 C05',
+ 'text': 'Theorems over SST/Model/Conc.lean (threads: any number of clients, flusher, compactor, rotation hook; micro-steps = lock-protected sections of '
+         'simpledb): for EVERY reachable database state and EVERY schedule the locks admit, the history (invocations, completed calls with invocation/response '
+         'indices and results) has a sequential witness: duplicate-free, made of real calls, containing every completed call with its result, respecting real '
+         'time, legal for the reference map of C01 (linearizable_partial); background micro-steps (addReader, reflection of a possibly stale selection, forced '
+         'rotation) never change abs or the answer of Get (bg_steps_preserve_abs); the two-phase Get (tables snapshot, then memstore after any number of '
+         'addReader steps) returns the atomic answer (get_two_phase_ok); the lock structure the model assumes is the one extracted from the source today '
+         '(lock_facts_as_modelled). Tie: 2-8 goroutines on the real DB with size-triggered and forced rotations and compaction cycles, histories checked with '
+         'porcupine; a sequential witness is replayed through `db.run`, a lock-admissible micro-step schedule with the recorded invocation/response order and '
+         'random background steps through `conc.exec`, results compared call by call.',
+ 'note': 'PARTIAL by nature: the theorem is about the lock-granularity model; that sync.RWMutex/channels/the scheduler implement mutual exclusion and hand-off '
+         'is assumed, and the recorded histories validate the model against the code (they are not the theorem).',
+ 'assumptions': ['modelled, not verified: sync.RWMutex (mutual exclusion, release/acquire ordering), the unbuffered flush channel (hand-off only when the '
+                 'flusher receives), `go` statements / channel joins as happens-before edges, the Go scheduler and memory model; the interleaving semantics '
+                 'has lock granularity and cannot exhibit finer-grained behaviour',
+                 'every client method takes db.rwLock as extracted (re-checked on every run by lock_facts_as_modelled / C18.race_free)',
+                 'hooks (verif build tag) are not called concurrently with Open/Close (harness obligation)'],
+ 'explanation': 'proof over the lock-granularity model for all schedules; lock facts regenerated from the source; recorded histories tie the model to the '
+                'running code',
+ 'trusted_base': COMMON_TB + ['translator tools/lockfacts (stdlib go/parser, go/ast, go/token, go/printer; syntactic receiver/field resolution; caller-held locks as a fixed point over the '
+ "package call graph) — rebuilt and run on /repo's working tree before every proof build",
+ 'modelled, not verified: sync.RWMutex (mutual exclusion, release/acquire ordering), the unbuffered flush channel (hand-off only when the flusher receives), '
+ '`go` statements / channel joins as happens-before edges, the Go scheduler and memory model; the interleaving semantics has lock granularity and cannot '
+ 'exhibit finer-grained behaviour',
+ "porcupine (linearizability checker, vendored through /repo's replace directive) as validation oracle only"]},
+    "C18": {'title': 'Documented concurrent use is data-race free and gives single-threaded answers',
+ 'streams': [{'name': 'race', 'quick': 3, 'thorough': 32, 'thorough_seeds': 1}, {'name': 'conc', 'quick': 10, 'thorough': 100, 'thorough_seeds': 1}],
+ 'also': ['C05'],
+ 'technique': 'Lean 4 `decide` over the access table and purity facts REGENERATED from the source on every run (the quantifier is the table) + purity of the '
+              'read operations in the models + `go build -race` stress of the three handles against precomputed single-threaded answers',
+ 'level': 'proof',
+ 'design_ref': '§5 C18',
+ 'text': 'race_free: any two accesses of the regenerated table (fields of DB/SSTableManager/RWMemstore and the content of memstores, WAL, table readers; with '
+         'kind, held locks incl. caller-held ones, thread kind) that conflict and can overlap hold a common lock in a compatible mode or are ordered by the '
+         'memstore-ownership or closed-flag hand-off; order_facts_as_expected pins the Open/Close/flush hand-off order the rules rest on; '
+         'documented_reads_write_nothing: no assignment to a receiver field or package variable on the '
+         "ReadNextAt/SeekNext/Get/Contains/ScanRange/ScanStartingAt paths (Scan is flagged); reads_are_pure + reads_alone: the model's read operations leave "
+         'the handle unchanged, so in any sequence each returns what it returns alone; concurrent_gets_return_the_sequential_answer (from C05).',
+ 'note': "PARTIAL by nature: the Go memory model, sync primitives, the buffer pool, mmap and the race detector's coverage are runtime facts; the stress stream "
+         'validates the extracted table against the code (a race report, panic or wrong answer is a violation with the report as detail).',
+ 'assumptions': ['modelled, not verified: sync.RWMutex (mutual exclusion, release/acquire ordering), the unbuffered flush channel (hand-off only when the '
+                 'flusher receives), `go` statements / channel joins as happens-before edges, the Go scheduler and memory model; the interleaving semantics '
+                 'has lock granularity and cannot exhibit finer-grained behaviour',
+                 'default (slice) index loader; Scan / Close are outside the documented concurrent set',
+                 'hooks (verif build tag) are not called concurrently with Open/Close (harness obligation)'],
+ 'explanation': 'decide over tables regenerated from the source (a proof about the table); model-level purity; race-detector stress as validation of the table',
+ 'trusted_base': COMMON_TB + ['translator tools/lockfacts (stdlib go/parser, go/ast, go/token, go/printer; syntactic receiver/field resolution; caller-held locks as a fixed point over the '
+ "package call graph) — rebuilt and run on /repo's working tree before every proof build",
+ 'modelled, not verified: sync.RWMutex (mutual exclusion, release/acquire ordering), the unbuffered flush channel (hand-off only when the flusher receives), '
+ '`go` statements / channel joins as happens-before edges, the Go scheduler and memory model; the interleaving semantics has lock granularity and cannot '
+ 'exhibit finer-grained behaviour',
+ 'modelled, not verified: capnp bufferpool.Pool (internally synchronised), x/exp/mmap.ReaderAt, bloomfilter.Contains, slice aliasing below field granularity, '
+ 'the Go race detector']},
+    "C07": {
+        "title": "WAL replay yields the appended records in order; synced appends survive a kill",
+        "streams": [{"name": "wal", "quick": 300, "thorough": 1500, "thorough_seeds": 2},
+                    {"name": "crash", "args": ["--flavour", "wal"], "quick": 20, "thorough": 80, "thorough_seeds": 2}],
+        "technique": "Lean 4 proof (appender invariant + admissible-event/crash-image invariant over every event prefix; truncation lemma of C12; buffered-writer transparency) + differential correspondence model/Go on byte-exact WAL files, per-operation on-disk sizes, every byte-level cut of every file, and real system-call-boundary images (strace)",
+        "level": "proof",
+        "design_ref": "§5 C07",
+        "text": "Theorems for ALL max sizes, buffer sizes, lawful compressors and programs of Append/AppendSync/Rotate (nil, empty, larger-than-limit and larger-than-buffer records): replay (dirOf prog) = the appended records in order (replay_eq_appends, million_guard); the events of AppendSync r end with the record's bytes written and an fsync of its file before it returns (sync_is_durable); for EVERY prefix of the file-system event list (incl. during Close) replay succeeds and returns a prefix of the appended records containing every record whose AppendSync had returned (replay_after_crash, crash_image_shape); the vendored buffered writer is transparent for every buffer size and write/flush sequence (bufw_transparent, bufw_flush_boundaries, bufw_aligned). Tied on every run: byte-exact WAL files and sizes after every operation, replay before/after Close, every byte-level cut of the last file read by the real replayer, and (stream crash, flavour wal) the image at every real system-call boundary of a traced appender process compared with the model's event list.",
+        "note": "Trusted: Lean kernel, three standard axioms, harness, strace. The OS has no resource limits in the model (descriptor exhaustion was a real defect, fixed: 17d987b). The one-million-files guard is proved on the model only.",
+        "trusted_base": COMMON_TB + [RIO_MODELLED, "strace and the image replayer of the crash stream (kill-9 model: a completed system call is retained, each call is atomic)"],
+        "assumptions": ["compressors lawful (dec (enc x) = some x)", "record sizes fit 64-bit header fields", "flat WAL directory written only by the appender", "OS resources (descriptors, memory) unbounded in the model"],
+        "explanation": "proof over the model for all programs and crash prefixes; correspondence runs tie the model to the current source",
+    },
 }
